@@ -226,9 +226,14 @@ func ParseMessage(reader *bufio.Reader) (*Message, error) {
 	if contentLength < 0 {
 		return nil, errors.New("invalid negative Content-Length field")
 	}
-	msg.body = make([]byte, contentLength)
-	if _, err = io.ReadFull(reader, msg.body); err != nil {
+	// read the body as it arrives: the declared length is untrusted input and must not decide
+	// how much memory is allocated before the bytes are there
+	msg.body, err = io.ReadAll(io.LimitReader(reader, int64(contentLength)))
+	if err != nil {
 		return nil, err
+	}
+	if len(msg.body) < contentLength {
+		return nil, io.ErrUnexpectedEOF
 	}
 	return msg, nil
 }
